@@ -185,38 +185,94 @@ def normalize(node):
 
 
 def alpha_rename(node):
-    """Copy of the tree in which a name bound more than once keeps its spelling for the first binding (source order) and is
-    spelled `name#id` for the others, in the binding and in every use (uses are resolved by id in HIR). Macro hygiene can
-    give distinct locals one spelling (`arg` in format_ident!); an environment keyed by spelling would conflate them."""
-    first, ren = {}, {}
+    """Copy of the tree in which a local that an environment keyed by *spelling* would mis-resolve is spelled `name#id`, in
+    its binding and in every use (uses are resolved by id in HIR). Ordinary shadowing never needs this - a use always
+    refers to the innermost binding of its spelling - but macro hygiene can give distinct locals one spelling and use an
+    outer one where an inner one is in scope (`arg` in the expansion of format_ident!). Only those locals are renamed, so
+    the spellings that rules and hooks know (`sql`, `self`, parameter names) stay as they are."""
+    conflict = set()
 
-    def scan(n):
+    def binds(pat, env):
+        if isinstance(pat, list):
+            for x in pat:
+                binds(x, env)
+        elif isinstance(pat, dict):
+            if pat.get("k") == "bind" and "id" in pat and "name" in pat:
+                env[pat["name"]] = pat["id"]
+            for k, v in pat.items():
+                if isinstance(v, (dict, list)) and k not in ("lit", "mac", "substs", "adj", "path"):
+                    binds(v, env)
+
+    def lets_in(cond, env_then):
+        # `if let P = e` / let chains: the patterns are in scope in the then-branch
+        if isinstance(cond, dict):
+            if cond.get("k") == "let" and isinstance(cond.get("pat"), dict):
+                binds(cond["pat"], env_then)
+            for k, v in cond.items():
+                if isinstance(v, dict) and k not in ("pat", "lit", "mac", "substs", "adj"):
+                    lets_in(v, env_then)
+
+    def go(n, env):
         if isinstance(n, list):
             for x in n:
-                scan(x)
-        elif isinstance(n, dict):
-            if n.get("k") == "bind" and "id" in n and "name" in n:
-                if n["name"] not in first:
-                    first[n["name"]] = n["id"]
-                elif first[n["name"]] != n["id"]:
-                    ren[n["id"]] = "%s#%s" % (n["name"], n["id"])
-            for k, v in n.items():
-                if isinstance(v, (dict, list)) and k not in ("lit", "mac", "substs", "adj"):
-                    scan(v)
-    scan(node)
-    if not ren:
+                go(x, env)
+            return
+        if not isinstance(n, dict):
+            return
+        k = n.get("k")
+        if k == "local":
+            if "id" in n and env.get(n.get("name")) not in (None, n["id"]):
+                conflict.add(n["id"])
+            return
+        if k == "block":
+            env2 = dict(env)
+            for st in n.get("stmts") or []:
+                if isinstance(st, dict) and st.get("k") == "stmt_let":
+                    go(st.get("init"), env2)
+                    go(st.get("els"), env2)
+                    binds(st.get("pat"), env2)
+                else:
+                    go(st, env2)
+            go(n.get("expr"), env2)
+            return
+        if k == "match":
+            go(n.get("scrut"), env)
+            for arm in n.get("arms") or []:
+                env2 = dict(env)
+                binds(arm.get("pat"), env2)
+                go(arm.get("guard"), env2)
+                go(arm.get("body"), env2)
+            return
+        if k == "closure":
+            env2 = dict(env)
+            for p_ in n.get("params") or []:
+                binds(p_.get("pat") if isinstance(p_, dict) and "pat" in p_ else p_, env2)
+            go(n.get("body"), env2)
+            return
+        if k == "if":
+            go(n.get("cond"), env)
+            env2 = dict(env)
+            lets_in(n.get("cond"), env2)
+            go(n.get("then"), env2)
+            go(n.get("else"), env)
+            return
+        for kk, v in n.items():
+            if isinstance(v, (dict, list)) and kk not in ("lit", "mac", "substs", "adj", "pat"):
+                go(v, env)
+    go(node, {})
+    if not conflict:
         return node
 
-    def go(n):
+    def ren(n):
         if isinstance(n, list):
-            return [go(x) for x in n]
+            return [ren(x) for x in n]
         if not isinstance(n, dict):
             return n
-        out = {k: (go(v) if isinstance(v, (dict, list)) and k not in ("lit", "mac", "substs", "adj") else v) for k, v in n.items()}
-        if out.get("k") in ("bind", "local") and out.get("id") in ren:
-            out["name"] = ren[out["id"]]
+        out = {k: (ren(v) if isinstance(v, (dict, list)) and k not in ("lit", "mac", "substs", "adj") else v) for k, v in n.items()}
+        if out.get("k") in ("bind", "local") and out.get("id") in conflict and "name" in out:
+            out["name"] = "%s#%s" % (out["name"], out["id"])
         return out
-    return go(node)
+    return ren(node)
 
 
 def place(e):
